@@ -5,6 +5,8 @@ Decided: scope brackets (push/pop) and file-stack brackets balanced on every fea
 syntax does not skip indexing of the rest of the construct; dispatch over statement/body-item kinds
 reaches every kind's indexer; every variable created is bound; lookup order inside one scope.
 Not decided: which declaration a name denotes in general (inheritance, shadowing across kinds)."""
+import re
+
 from .. import brackets, cfg, grammar_facts as gf, ast_facts, paths
 from ..facts import Body, op_local
 from ..callgraph import callgraph
@@ -173,20 +175,30 @@ def run(ck, prog):
     ck.anchor(fl is not None, "Scopes::find_local not found")
     order = ["ide::index::scope::Scope::find_variable", "ide::symbol_map::record::Record::find_field",
              "ide::symbol_map::record::Record::find_template_arg"]
-    blocks = {}
-    for i, t in fl.calls():
-        c = Body.callee(t)
-        if c in order:
-            blocks.setdefault(c, []).append(i)
-    ok = all(len(blocks.get(c, [])) == 1 for c in order)
-    detail = "find_variable, find_field, find_template_arg each called once per scope iteration"
-    if ok:
-        lp = cfg.loops(fl)
-        inloop = lp and all(any(blocks[c][0] in body for _, body in lp) for c in order)
-        dom = cfg.dominators(fl)
+    # the per-scope lookup lives either in a loop of find_local or in a closure it hands to an iterator adaptor
+    # (find_map / filter_map / map over the reversed scope stack)
+    ok = False
+    detail = "find_variable, find_field, find_template_arg not found together in find_local or one of its closures"
+    for cand in [fl] + prog.closures_of(fl.path):
+        blocks = {}
+        for i, t in cand.calls():
+            c = Body.callee(t)
+            if c in order:
+                blocks.setdefault(c, []).append(i)
+        if not all(len(blocks.get(c, [])) == 1 for c in order):
+            continue
+        dom = cfg.dominators(cand)
         seq = blocks[order[0]][0] in dom[blocks[order[1]][0]] and blocks[order[1]][0] in dom[blocks[order[2]][0]]
-        ok = bool(inloop) and seq
-        detail = "inside the scope loop, in the order variables -> fields -> template arguments (by dominance)"
+        if cand is fl:
+            lp = cfg.loops(fl)
+            per_scope = bool(lp) and all(any(blocks[c][0] in body for _, body in lp) for c in order)
+        else:
+            per_scope = any(re.search(r"Iterator::(find_map|filter_map|map|find|any)$", Body.callee(t) or "") and
+                            any(ga.get("closure") == cand.path for ga in (t["f"].get("args") or []))
+                            for _, t in fl.calls())
+        ok = seq and per_scope
+        detail = "once per scope, in the order variables -> fields -> template arguments (by dominance)"
+        break
     ck.ob("R05.6", "find_local-order", ok, detail,
           msg="Scopes::find_local no longer looks up variables, then fields, then template arguments within one "
               "iteration over the scopes (innermost declaration would not win)")
